@@ -491,7 +491,7 @@ type ReplayFile struct {
 }
 
 func (c *Check) writeReplay(f *Finding) string {
-	dir := filepath.Join(verifDir, "replays", c.ID)
+	dir := filepath.Join(outDir, "replays", c.ID)
 	os.MkdirAll(dir, 0o755)
 	h := sha1.Sum([]byte(f.Signature))
 	path := filepath.Join(dir, fmt.Sprintf("%x.json", h[:6]))
@@ -563,8 +563,8 @@ func (c *Check) writeEvidence(wall float64, violations int, note string) {
 		ev.Assumptions = []string{}
 	}
 	b, _ := json.MarshalIndent(ev, "", " ")
-	os.MkdirAll(filepath.Join(verifDir, "evidence"), 0o755)
-	os.WriteFile(filepath.Join(verifDir, "evidence", c.ID+".json"), b, 0o644)
+	os.MkdirAll(filepath.Join(outDir, "evidence"), 0o755)
+	os.WriteFile(filepath.Join(outDir, "evidence", c.ID+".json"), b, 0o644)
 }
 
 // tmpl helpers -----------------------------------------------------------------
